@@ -155,7 +155,7 @@ func runRacerW(lines []string, worker int) ([]caseResult, error) {
 		os.Remove(outp)
 		ctx, cancel := context.WithTimeout(context.Background(), 20*time.Minute)
 		cmd := exec.CommandContext(ctx, exe, in, outp)
-		cmd.Env = append(goEnv(), "GORACE=log_path="+filepath.Join(dir, "racelog", "r")+" halt_on_error=0 exitcode=0 history_size=3")
+		cmd.Env = append(goEnv(), "GORACE=log_path="+filepath.Join(dir, "racelog", "r")+" halt_on_error=0 exitcode=0 history_size=7")
 		var stderr bytes.Buffer
 		cmd.Stderr = &stderr
 		cmd.Stdout = &stderr
@@ -680,6 +680,71 @@ func Gen(run *vlib.Run, seed uint64, tier string) {
 		cr := execCase(c, nil)
 		record(run, pendingCase{c, caseLabels(c, "seq-control", extra...), nontrivial(c)}, cr)
 	}
+	// ---- stage boundary (in this process): empty threads, idle steps (ids of
+	// finished or non-existent threads) and schedules that stop early
+	for i := vlib.Count(tier, 24, 400); i > 0; i-- {
+		ei := infos[vlib.Pick(r, depEnvs)]
+		if ei == nil {
+			continue
+		}
+		oa := opArgs(ei)
+		nth := r.Range(1, 4)
+		threads := make([][]opInst, nth)
+		mut := vlib.Pick(r, []string{"Version", "FamilyName", "UnitsPerEm"})
+		for t := range threads {
+			if r.Chance(1, 5) {
+				continue // a thread without operations
+			}
+			for k := r.Range(1, 3); k > 0; k-- {
+				if r.Chance(1, 3) {
+					threads[t] = append(threads[t], ei.trace(opIndex["Set"+mut], r.Intn(3), t, true))
+				} else {
+					x := vlib.Pick(r, oa)
+					if ei.inferDeps(x.o, x.a)[mut] != depPartial {
+						threads[t] = append(threads[t], ei.trace(x.o, x.a, t, true))
+					}
+				}
+			}
+		}
+		c := &caseT{Mode: "seq", Env: ei.e.Name, Heap: ei.pristine, Threads: threads}
+		// op-granular order, possibly cut short, with idle steps between operations
+		next := make([]int, nth)
+		left := 0
+		for _, th := range threads {
+			left += len(th)
+		}
+		stopAt := left
+		if r.Chance(1, 2) {
+			stopAt = r.Intn(left + 1)
+		}
+		for done := 0; done < stopAt; {
+			if r.Chance(1, 4) {
+				c.Sched = append(c.Sched, nth+r.Intn(3)) // no such thread
+			}
+			t := r.Intn(nth)
+			if next[t] >= len(threads[t]) {
+				if r.Chance(1, 3) {
+					c.Sched = append(c.Sched, t) // finished (or empty) thread
+				}
+				continue
+			}
+			for k := threads[t][next[t]].steps(); k > 0; k-- {
+				c.Sched = append(c.Sched, t)
+			}
+			next[t]++
+			done++
+		}
+		extra := []string{}
+		if stopAt < left {
+			extra = append(extra, "sched:incomplete")
+		}
+		if c.hasControl() {
+			extra = append(extra, "control:mutator")
+		}
+		cr := execCase(c, nil)
+		record(run, pendingCase{c, caseLabels(c, "boundary", extra...), nontrivial(c)}, cr)
+	}
+
 	depSummary := map[string]int{}
 	for _, n := range depEnvs {
 		if ei := infos[n]; ei != nil {
@@ -864,7 +929,7 @@ func Gen(run *vlib.Run, seed uint64, tier string) {
 				expectedRaces++
 				// the detector's shadow memory is finite: give a control whose
 				// race was not reported two more runs in fresh processes
-				for try := 0; try < 2 && results[i].Race == "" && results[i].Err == ""; try++ {
+				for try := 0; try < 3 && results[i].Race == "" && results[i].Err == ""; try++ {
 					retried++
 					if rs, err := runRacer([]string{lines[i]}); err == nil && len(rs) == 1 {
 						results[i] = rs[0]
